@@ -79,6 +79,46 @@ type Task struct {
 	Finished   bool
 	Panic      interface{}
 	PanicStack string
+
+	lockWait atomic.Int32 // 1 while the task waits for a simulated Mutex / RWMutex
+}
+
+// lockWaitBegin marks the calling task (the token holder) as waiting for a simulated lock.
+//go:norace
+func lockWaitBegin() *Task {
+	s := cur.Load()
+	if s == nil {
+		return nil
+	}
+	t := s.current.Load()
+	if t != nil && t.g == getg() {
+		t.lockWait.Store(1)
+		return t
+	}
+	return nil
+}
+
+//go:norace
+func lockWaitEnd(t *Task) {
+	if t != nil {
+		t.lockWait.Store(0)
+	}
+}
+
+// LockWaiters lists the tasks that are waiting for a simulated lock right now. Called by the world at
+// quiescence (after Settle / Sleep), long after every deadline of the scenario: a task that still waits then
+// waits for a lock whose holder will never release it (self-deadlock, lock-order deadlock, holder gone).
+func (w *World) LockWaiters() []string {
+	s := w.S
+	s.mu.Lock()
+	defer s.mu.Unlock()
+	var out []string
+	for _, t := range s.tasks {
+		if t.lockWait.Load() == 1 && !t.Finished && !t.dead() {
+			out = append(out, fmt.Sprintf("%s@node%d", t.Name, t.Node))
+		}
+	}
+	return out
 }
 
 // PanicInfo records a panic raised inside a task.
